@@ -6,6 +6,14 @@ HERE = os.path.dirname(os.path.dirname(os.path.abspath(__file__)))
 
 # id -> (level category, technique, level text, level note, design ref)
 CHECKS = {
+ "C05": ("model_checking", "explicit-state BFS by history replay over two real PeerCrypto handshake objects (object level) and over two real nodes (node level)",
+         "Object level: all schedules over {A initiates, B initiates, deliver/duplicate/drop ANY of <= 4 in-flight datagrams, tick A/B x1/x61/x121, restart A/B} to depth 6 quick / 9 thorough for both salted-hash orientations plus a plain variant, on real PeerCrypto objects; objects returning a fatal handshake error are discarded as the node does. In every state: at most one completion per object; if both completed the same attempt (tracked by message lineage): same cipher, opposite nonce halves, exactly one rotation initiator, exchanged payloads, probes open both ways; from every state 125 loss-free ticks must bring two live objects to a common completed attempt.",
+         "Trusted: canonical form (audited), lineage tracking in the harness. Two parties. The network in the fair suffix is reliable with bounded rate (32 datagrams/tick, 4 once a pong storm was seen).",
+         "DESIGN.md section 5 C05"),
+ "C08": ("fault_enumeration", "fault-space enumeration: receiver states x sources x structured datagram domain through the real socket event of a mock-backed node",
+         "The complete product {unknown sender, pending initiator, pending responder, established lingering, established settled, established plain, closing} x {unknown address, the peer's address} x {all byte strings of length <= 2; lengths 3..=80 x 15 first bytes x 4 bodies; 0xff + valid key-hash prefix + tag x 13 extreme lengths at every part position of genuine ping/pong/peng; every truncation and length-field corruption of genuine handshake and sealed datagrams; sizes 1400/9000/65435} - about 1.07 M datagrams - is handed to a real GenericCloud node under panic capture; a rejected datagram must leave peers, pending handshakes (including replay windows), routes, own addresses unchanged, cause no reply and no interface write. Datagrams that equal a genuine signed message (also when completed by the zero-filled receive buffer) are replays and belong to C09.",
+         "Trusted: the snapshot covers all state a datagram can leave behind (statistics counters excluded). On a connection where both ends enabled 'plain' nothing is verified, so only crash freedom is demanded for the peer's address there. Sequences follow by induction from the unchanged-state oracle.",
+         "DESIGN.md section 5 C08"),
  "C04": ("model_checking", "seal-log monitor over an exhaustively enumerated scenario space of real connection lifetimes + exhaustive counter-boundary enumeration",
          "Every connection lifetime in the scenario space (ciphers x both salted-hash orientations x {A dials, B dials, both dial with crossing pings} x all 256 loss patterns over the first 8 rotation datagrams, 8-12 rotation cycles with traffic both ways) is executed on real PeerCrypto objects with the hook's per-seal log on: no (key fingerprint, nonce) pair occurs twice, counters strictly increase per key and end, untransmitted nonce bytes stay zero, ends use opposite halves, first counters of rotated-in keys do not continue another key's sequence. The counter increment is compared with 96-bit +1 on every boundary pattern and on all 2^24 low-byte values under 4 high patterns (67 M cases); counters placed at 2^56-10..2^56+3 and at every byte-carry boundary are sealed 7 times and opened: overflowing counters must not open, headers never repeat. The half assignment over all handshake schedules is checked in C05's search.",
          "Trusted: the seal-log hook records exactly the (key, nonce) handed to ring (one added line in CryptoCore::encrypt). Random counter starts are not forced except through verif_set_send_nonce in the limit family.",
